@@ -365,12 +365,21 @@ CULPRITS = [
     ("unwrap-none", "opt.unwrap()", "call:", True),
     ("str-index-oob", 'wrd[seven]', "index:", False),
     ("parse-int", 'wrd.parse_int()', "call:", True),
+    # failed runtime validation of a dynamically typed value: an `as` cast, an annotated `let` (the statement is the
+    # culprit) with an inline type and with a named type alias (whose definition is somewhere else)
+    ("cast-as", "jsn.parse_json() as int", "cast:", True),
+    ("cast-as-list", "jsl.parse_json() as [str]", "cast:", True),
+    ("let-annot", "let r: int = jsn.parse_json();", "let:", True, "", None, True),
+    ("let-annot-obj", "let r: { a: int } = jsl.parse_json();", "let:", True, "", None, True),
+    ("let-alias", "let r: Num = jsn.parse_json();", "let:", True, "type Num = int;\n", None, True),
+    ("let-alias-obj", "let r: Rec = jsl.parse_json();", "let:", True, "type Rec = {\n    a: int,\n    b: str\n};\n", None, True),
     # the culprit sits in a helper function of the same file; the statement only starts the recursion
     # (the culprit is the recursive function: the VM notices the limit at whatever instruction of it is current)
     ("stack-overflow", "fn deep(n: int) -> int {\n    deep(n + 1)\n}", "fn:deep", False, "fn deep(n: int) -> int {\n    deep(n + 1)\n}\n", "deep(0)"),
 ]
 
-PRELUDE = "    let one = 1;\n    let zero = 0;\n    let seven = 7;\n    let lst = [1, 2, 3];\n    let wrd = \"ab\";\n    let opt: ?int = none;\n"
+PRELUDE = ("    let one = 1;\n    let zero = 0;\n    let seven = 7;\n    let lst = [1, 2, 3];\n    let wrd = \"ab\";\n    let opt: ?int = none;\n"
+           "    let jsn = \"\\\"text\\\"\";\n    let jsl = \"[1, 2]\";\n")
 
 
 def runtime_cases(rng, n_layout):
@@ -379,14 +388,14 @@ def runtime_cases(rng, n_layout):
     or uncaught; with random leading layout (blank lines, comments, indentation, unicode before it)."""
     out = []
     for name, culprit, kind, catchable, *extra in CULPRITS:
-        helper, starter = (extra + ["", None])[:2] if extra else ("", None)
+        helper, starter, is_stmt = (extra + ["", None, False])[:3] if extra else ("", None, False)
         for where in ("main", "callee", "module", "module-global-fn"):
             for caught in (True, False):
                 for _ in range(n_layout):
                     pad_lines = "".join(rng.choice(["\n", "// é comment\n", "/* block\n comment */\n", "   \n"])
                                         for _ in range(rng.randrange(0, 4)))
                     pre = rng.choice(["", "  ", "let s = \"é∑\"; ", "/* é */ ", "\t"])
-                    stmt = f"{pre}let r = {starter or culprit};\n    println(r);\n"
+                    stmt = f"{pre}{culprit}\n    println(r);\n" if is_stmt else f"{pre}let r = {starter or culprit};\n    println(r);\n"
                     body = PRELUDE + pad_lines + "    " + stmt
                     if caught:
                         call = "    try {\n%s    } catch e {\n        " + PRINT_E + "\n    }\n"
